@@ -30,6 +30,7 @@ typedef unsigned __int32 uint32_t;
 #include "metrics.h"
 #include "state.h"
 #include "util.h"
+#include "verif_hooks.h"
 
 using namespace std;
 
@@ -134,6 +135,7 @@ bool DepsLog::RecordDeps(Node* node, TimeStamp mtime, int node_count,
   }
   if (fflush(file_) != 0)
     return false;
+  VERIF_CRASH_POINT("depslog-record");
 
   // Update in-memory representation.
   Deps* deps = new Deps(mtime, node_count);
@@ -363,6 +365,7 @@ bool DepsLog::Recompact(const string& path, string* err) {
   deps_.swap(new_log.deps_);
   nodes_.swap(new_log.nodes_);
 
+  VERIF_CRASH_POINT("depslog-recompact");
   return ReplaceContent(path, temp_path, err);
 }
 
@@ -414,6 +417,7 @@ bool DepsLog::RecordId(Node* node) {
     return false;
   if (fflush(file_) != 0)
     return false;
+  VERIF_CRASH_POINT("depslog-id");
 
   node->set_id(id);
   nodes_.push_back(node);
